@@ -31,7 +31,7 @@ PROPS = {
                 level_note='query traversal (keys, *, [*], filters, variables, key-case converters) and list flattening in operators.rs are NOT under contract: a change confined to query_retrieval_with_converter is not detected by this check',
                 not_under_contract=['query_retrieval_with_converter', 'operators.rs list-valued Eq/In', 'eval_guard_block_clause', 'eval_type_block_clause', 'scopes (resolve_variable, rule_status)', 'parser'],
                 explanation=''),
-    'C08': dict(level='proof', vgroups=['eval', 'eval_blocks', 'eval_disp', 'index', 'index2', 'tracker', 'validate', 'exit', 'status', 'merge', 'report'],
+    'C08': dict(level='proof', vgroups=['eval', 'eval_blocks', 'eval_disp', 'index', 'index2', 'tracker', 'tables', 'validate', 'exit', 'status', 'merge', 'report'],
                 kunits=['U-substr', 'U-call', 'U-cnf', 'U-count', 'U-conv', 'U-join', 'U-expect', 'U-xr'],
                 kunits_quick=['U-substr', 'U-call'],
                 assumptions=EVAL_ASSUME + KANI_ASSUME,
